@@ -53,8 +53,15 @@ package clusterinfo
 //@ func (p *Producer) UnmarshalJSON(b []byte) error
 //@   props C18
 //@   requires p != nil
+//   frame: the producer itself and the backing array of its topic list - in particular the decoded document (fresh, allocated here)
+//   is the only other thing written, and only by the decoder: nothing re-orders or edits it before it is copied
+//@   modifies *p, elems(ProducerTopic)
 //@   loop 0
 //@     invariant[topics] len(p.Topics) == rangeindex + 1
+//   (round 6) the view reports what the upstream reports: entry k is topic k of the document with tombstone flag k of the document
+//   (positional pairing, nothing re-ordered; a missing flag means not tombstoned)
+//@     invariant[paired-with-its-own-flag] forall k int :: {p.Topics[k]} 0 <= k && k <= rangeindex ==> p.Topics[k].Topic == r.Topics[k] && (p.Topics[k].Tombstoned <==> (k < len(r.Tombstoned) && r.Tombstoned[k]))
+//@     invariant[document-kept] r.Topics == atloop(r.Topics) && r.Tombstoned == atloop(r.Tombstoned) && rangeindex < len(r.Topics)
 
 // accOK: what ChannelStats.Add needs of an accumulator.
 //@ pred accOK(c *ChannelStats) := c != nil && (c.E2eProcessingLatency != nil ==> entriesOK(c.E2eProcessingLatency))
